@@ -24,6 +24,10 @@ struct Config {
     long clock_jump_ms = 0;
     // S7: FFT planner
     int planner_mode = 0;             // 0 = stub (FFTW_ESTIMATE, no wisdom files), 1 = real planner + wisdom files
+    // buggify: FFTW documents that a c2r transform destroys its input array even when out of place. This FFTW build
+    // leaves most of it alone; with c2r_scribble != 0 the simulator overwrites the whole input (bins 0..n/2) with
+    // garbage after every c2r execution, which is legal library behaviour.
+    int c2r_scribble = 0;             // 0 off, 1 large finite garbage, 2 NaN
     // S8: read faults on an input file (path substring match)
     std::string fault_path;           // substring of the path the fault applies to
     int fault_kind = 0;               // 0 none, 1 open fails (errno below), 2 pread fails with EIO, 3 short pread
@@ -38,7 +42,7 @@ struct State {
     long loop_heads = 0, steps_done = 0;
     bool in_loop = false, after_loop = false, report_decided = false;
     long entropy_reads = 0, clock_reads = 0;
-    long planner_calls = 0, wisdom_imports = 0, wisdom_exports = 0;
+    long planner_calls = 0, wisdom_imports = 0, wisdom_exports = 0, scribbles = 0;
     long io_writes = 0, io_reads = 0, io_opens = 0;
     long faults_fired = 0;
     long signals_raised = 0;
